@@ -67,8 +67,10 @@ def main(tier, replay):
             for kind in ("crash_undelivered", "crash_delivered"):
                 extras = []
                 x = rng.random()
-                if x < 0.12:
-                    extras = [{"at": i, "what": rng.choice(["reader", "writer", "gc", "split"]), "k": ""}]
+                if x < 0.2:
+                    # another client acts at or before the crash point (a reader may push the primary's min-commit ts
+                    # under a commit that is already on its way)
+                    extras = [{"at": rng.randrange(0, i + 1), "what": rng.choice(["reader", "writer", "gc", "split", "push_min_commit"]), "k": ""}]
                 cases.append(txnlab.mk_scenario(f"{sh['name']}-{mode}-{'p' if pess else 'o'}-{i}-{kind[6:7]}{'x' if extras else ''}{'-fb' if fb else ''}", sh, mode, pess,
                                                 faults=[{"at": i, "kind": kind}], extras=extras, **txnlab.fbkw(fb)))
     if tier == "quick" and len(cases) > 1800:
